@@ -1,0 +1,188 @@
+//! The file-operation tap: every mutating file operation pearl performs is announced to the
+//! controller before it is executed, and the controller may let it proceed, make it fail, or let
+//! only a prefix of a write reach the file before failing it.
+
+use std::io;
+use std::os::unix::fs::FileExt;
+use std::path::{Path, PathBuf};
+
+use super::with;
+
+#[derive(Debug, Clone, PartialEq, Eq)]
+pub enum IoOp {
+    /// `open(2)` through `IoDriver::{open, create}`. `existed`/`len_before` are taken just
+    /// before the call; `tap_done` carries the length after it in `len_after`.
+    Open {
+        existed: bool,
+        len_before: u64,
+        len_after: Option<u64>,
+    },
+    /// positional write of `data` at `offset`; `len_before` is the file length just before it
+    Write {
+        offset: u64,
+        data: Vec<u8>,
+        len_before: u64,
+    },
+    /// positional read (announced only, cannot be shortened)
+    Read { offset: u64, len: usize },
+    /// `fsync` of the whole file; `upto` is the file length at that moment
+    Sync { upto: u64 },
+    /// truncation to zero length (`clean_file`)
+    Truncate,
+    /// `rename(2)`
+    Rename { to: PathBuf },
+    /// `unlink(2)`
+    Remove,
+    /// `mkdir(2)`
+    CreateDir,
+}
+
+#[derive(Debug, Clone, PartialEq, Eq)]
+pub struct IoEvent {
+    pub path: PathBuf,
+    pub op: IoOp,
+}
+
+#[derive(Debug)]
+pub enum TapAction {
+    Proceed,
+    /// do nothing and report this error
+    Fail(io::Error),
+    /// (writes only) write the first `n` bytes, then report this error
+    Short(usize, io::Error),
+}
+
+fn tap(ev: &IoEvent) -> TapAction {
+    with(|c| c.tap(ev)).unwrap_or(TapAction::Proceed)
+}
+
+/// Tap for an operation that cannot be shortened. `None`: the caller goes on.
+pub fn tap_simple(path: &Path, op: IoOp) -> Option<io::Error> {
+    if !super::active() {
+        return None;
+    }
+    let ev = IoEvent {
+        path: path.to_owned(),
+        op,
+    };
+    match tap(&ev) {
+        TapAction::Proceed => None,
+        TapAction::Fail(e) | TapAction::Short(_, e) => Some(e),
+    }
+}
+
+/// State captured before an `open(2)`, for [`tap_open_done`].
+pub struct OpenProbe {
+    path: PathBuf,
+    existed: bool,
+    len_before: u64,
+}
+
+pub fn tap_open(path: &Path) -> Result<Option<OpenProbe>, io::Error> {
+    if !super::active() {
+        return Ok(None);
+    }
+    let md = std::fs::metadata(path).ok();
+    let probe = OpenProbe {
+        path: path.to_owned(),
+        existed: md.is_some(),
+        len_before: md.map_or(0, |m| m.len()),
+    };
+    match tap_simple(
+        path,
+        IoOp::Open {
+            existed: probe.existed,
+            len_before: probe.len_before,
+            len_after: None,
+        },
+    ) {
+        Some(e) => Err(e),
+        None => Ok(Some(probe)),
+    }
+}
+
+pub fn tap_open_done(probe: Option<OpenProbe>) {
+    if let Some(p) = probe {
+        let len_after = std::fs::metadata(&p.path).map(|m| m.len()).ok();
+        let ev = IoEvent {
+            path: p.path,
+            op: IoOp::Open {
+                existed: p.existed,
+                len_before: p.len_before,
+                len_after,
+            },
+        };
+        with(|c| c.tap_done(&ev));
+    }
+}
+
+/// A `std::fs::File` whose positional writes, reads and syncs are announced to the tap first.
+/// Method names and signatures are those of `std::fs::File` / `FileExt`, so that code written
+/// against the std type compiles unchanged against this one.
+#[derive(Debug)]
+pub struct TapFile {
+    file: std::fs::File,
+    path: PathBuf,
+}
+
+impl TapFile {
+    pub fn new(file: std::fs::File) -> Self {
+        use std::os::unix::io::AsRawFd;
+        let path = std::fs::read_link(format!("/proc/self/fd/{}", file.as_raw_fd()))
+            .unwrap_or_default();
+        Self { file, path }
+    }
+
+    pub fn path(&self) -> &Path {
+        &self.path
+    }
+
+    pub fn write_all_at(&self, buf: &[u8], offset: u64) -> io::Result<()> {
+        if super::active() {
+            let ev = IoEvent {
+                path: self.path.clone(),
+                op: IoOp::Write {
+                    offset,
+                    data: buf.to_vec(),
+                    len_before: self.file.metadata().map_or(0, |m| m.len()),
+                },
+            };
+            match tap(&ev) {
+                TapAction::Proceed => {}
+                TapAction::Fail(e) => return Err(e),
+                TapAction::Short(n, e) => {
+                    let n = n.min(buf.len());
+                    return self.file.write_all_at(&buf[..n], offset).and(Err(e));
+                }
+            }
+        }
+        self.file.write_all_at(buf, offset)
+    }
+
+    pub fn read_exact_at(&self, buf: &mut [u8], offset: u64) -> io::Result<()> {
+        if let Some(e) = tap_simple(
+            &self.path,
+            IoOp::Read {
+                offset,
+                len: buf.len(),
+            },
+        ) {
+            return Err(e);
+        }
+        self.file.read_exact_at(buf, offset)
+    }
+
+    pub fn sync_all(&self) -> io::Result<()> {
+        if super::active() {
+            let upto = self.file.metadata().map_or(0, |m| m.len());
+            if let Some(e) = tap_simple(&self.path, IoOp::Sync { upto }) {
+                return Err(e);
+            }
+        }
+        self.file.sync_all()
+    }
+
+    pub fn metadata(&self) -> io::Result<std::fs::Metadata> {
+        self.file.metadata()
+    }
+}
